@@ -1457,7 +1457,7 @@ ORACLES["C10"] = oracle_c10
 
 # ------------------------------------------------------------------------------------------- C04
 
-ZONE_KEYS = {"query", "filter", "sort", "q", "update", "u", "updates", "deletes", "arrayFilters", "documents", "pipeline"}
+ZONE_KEYS = {"query", "filter", "sort", "q", "update", "u", "updates", "deletes", "arrayFilters", "documents", "pipeline", "updateMods", "document"}
 CMD_ATTRS = ("command", "cmd", "originatingCommand")
 # namespace-bearing command fields as the PROPERTY lists them (C12): verb value, $db, getMore's collection
 NS_FIELDS_SPEC = {"find", "aggregate", "insert", "update", "delete", "count", "findAndModify", "collection", "$db", "distinct",
@@ -1522,6 +1522,49 @@ def frame_diff(inp, out, cfg, eager_on):
             return (path, "%s %r -> %r" % (ka, a if not isinstance(a, str) else a[:60], b if not isinstance(b, str) else b[:60]))
         return None
 
+    def operation_frame(ava, avb, p, top):
+        """one operation document: everything but its query-bearing members (and, under -w, its namespace fields) must be kept;
+        at the top also the operation wrapped by explain and the operations / namespaces of bulkWrite"""
+        if kind(avb) != "obj" or ava.keys() != avb.keys():
+            if not eager_on:
+                return (p, "command keys changed")
+        for (ck, cva), (_, cvb) in zip(ava, avb):
+            if ck in ZONE_KEYS:
+                continue
+            if cfg.w and ck in NS_FIELDS_SPEC and isinstance(cva, str):
+                continue
+            if top and ck == "explain" and kind(cva) == "obj":
+                d = operation_frame(cva, cvb, p + (ck,), False)
+                if d:
+                    return d
+                continue
+            if top and ck == "ops" and ava.has("bulkWrite") and kind(cva) == "arr":
+                if kind(cvb) != "arr" or len(cva) != len(cvb):
+                    return (p + (ck,), "ops changed length / kind")
+                for i, (ea, eb) in enumerate(zip(cva, cvb)):
+                    d = operation_frame(ea, eb, p + (ck, i), False) if kind(ea) == "obj" else same(ea, eb, p + (ck, i))
+                    if d:
+                        return d
+                continue
+            if top and cfg.w and ck == "nsInfo" and kind(cva) == "arr" and kind(cvb) == "arr" and len(cva) == len(cvb):
+                for i, (ea, eb) in enumerate(zip(cva, cvb)):
+                    if kind(ea) == "obj" and kind(eb) == "obj" and ea.keys() == eb.keys():
+                        for (nk, nva), (_, nvb) in zip(ea, eb):
+                            if nk in NS_FIELDS_SPEC | {"ns"} and isinstance(nva, str):
+                                continue
+                            d = same(nva, nvb, p + (ck, i, nk))
+                            if d:
+                                return d
+                    else:
+                        d = same(ea, eb, p + (ck, i))
+                        if d:
+                            return d
+                continue
+            d = same(cva, cvb, p + (ck,))
+            if d:
+                return d
+        return None
+
     if kind(out) != "obj" or inp.keys() != out.keys():
         return ((), "top-level keys %r -> %r" % (inp.keys(), out.keys() if kind(out) == "obj" else kind(out)))
     comp = inp.get("c")
@@ -1543,17 +1586,9 @@ def frame_diff(inp, out, cfg, eager_on):
             if ak == "planSummary" and eager_on and isinstance(ava, str):
                 continue
             if ak in CMD_ATTRS and gated and kind(ava) == "obj":
-                if kind(avb) != "obj" or ava.keys() != avb.keys():
-                    if not eager_on:
-                        return (p, "command keys changed")
-                for (ck, cva), (_, cvb) in zip(ava, avb):
-                    if ck in ZONE_KEYS:
-                        continue
-                    if cfg.w and ck in NS_FIELDS_SPEC and isinstance(cva, str):
-                        continue
-                    d = same(cva, cvb, p + (ck,))
-                    if d:
-                        return d
+                d = operation_frame(ava, avb, p, True)
+                if d:
+                    return d
                 continue
             d = same(ava, avb, p)
             if d:
@@ -1569,7 +1604,8 @@ def kept_params(inp, out, path=(), depth=0, top_stage=None, in_zone=False):
             if in_zone and k in ("$limit", "$skip") and isinstance(va, Num):
                 if not (isinstance(vb, Num) and str(va) == str(vb)):
                     bad.append((path + (k,), "%s argument %s -> %r" % (k, va, vb)))
-            bad += kept_params(va, vb, path + (k,), depth + 1, top_stage, in_zone or (k in ZONE_KEYS and len(path) == 2 and path[0] == "attr" and path[1] in CMD_ATTRS))
+            bad += kept_params(va, vb, path + (k,), depth + 1, top_stage, in_zone or (k in ZONE_KEYS and len(path) >= 2 and path[0] == "attr" and path[1] in CMD_ATTRS and
+                                                                                           (len(path) == 2 or (len(path) == 3 and path[2] == "explain") or (len(path) == 4 and path[2] == "ops"))))
     elif isinstance(inp, list) and isinstance(out, list) and len(inp) == len(out):
         for i, (va, vb) in enumerate(zip(inp, out)):
             bad += kept_params(va, vb, path + (i,), depth, top_stage, in_zone)
@@ -1926,6 +1962,8 @@ def c15_site(path, how, tok):
 def c15_class(path, how):
     """site signature of a C15 violation: the CALL SITE in the code it belongs to, so that a different violation is still reported"""
     keys = [p for p in path if not isinstance(p, int)]
+    if len(keys) > 3 and keys[2] in ("explain", "ops"):
+        keys = keys[:2] + keys[3:]          # the operation wrapped by explain / an operation of bulkWrite goes through the same dispatch
     zone = keys[2] if len(keys) > 2 else ""
     if zone == "projection":
         return "fn:projection-document-not-walked"          # redactCommand has no dispatch for `projection`
@@ -2019,8 +2057,8 @@ def oracle_c15(tables, seed, tier, deep):
         ps = get_path(cs.tree, ("attr", "planSummary"))
         if isinstance(ps, str) and "IXSCAN" in ps:
             got = get_path(oa, ("attr", "planSummary"))
-            exp = pyre.sub(r"(IXSCAN\s*\{)([^}]+)(\})", lambda m: m.group(1) + ",".join(
-                (lambda kv: kv[0].replace(kv[0].strip(), py_hash_name(c1.repl, kv[0].strip()), 1) + (":" + kv[1] if len(kv) > 1 else "") if kv[0].strip() else ":".join(kv))(f.split(":", 1))
+            exp = pyre.sub(r"(IXSCAN[\t\n\f\r ]*\{)([^}]+)(\})", lambda m: m.group(1) + ",".join(
+                (lambda kv: kv[0].replace(go_trim(kv[0]), py_hash_name(c1.repl, go_trim(kv[0])), 1) + (":" + kv[1] if len(kv) > 1 else "") if go_trim(kv[0]) else ":".join(kv))(f.split(":", 1))
                 for f in m.group(2).split(",")) + m.group(3), ps)
             if got != exp:
                 viol.append({"site": "fn:planSummary", "detail": "plan summary %r -> %r, expected %r" % (ps, got, exp), "cfg": c1.s(), "cli_flags": c1.cli(), "input": cs.text, "output": ta})
